@@ -705,7 +705,9 @@ class Parser:
         if x.k == "int":
             self.next(); v, suf = parse_int(x.s); return ("int", v, suf)
         if x.k == "str":
-            self.next(); return ("str", x.s[1:-1] if not x.s.startswith("b") else x.s[2:-1])
+            self.next()
+            if x.s.startswith("b"): return ("str", x.s[2:-1], "b")      # byte-string literal `b"…"` (marked; b1819)
+            return ("str", x.s[1:-1])
         if x.k == "chr":
             if x.s.startswith("b") and len(x.s) == 4:
                 self.next(); return ("int", ord(x.s[2]), "u8")
